@@ -628,9 +628,129 @@ def enc_job(job):
     return {"id": job["id"], "seed": job["seed"], "model": job["model"], "cases": [], "enc": out}
 
 
+# ------------------------------------------------------------------ entities of the internal subset, XInclude mode
+def entity_docs(r, n):
+    """documents over ENC_SRC's model T with an internal DTD subset declaring general entities, used in character data and
+    in attribute values next to predefined entities and character references; returns (document, expanded document)"""
+    out = []
+    for _ in range(n):
+        ents = {}
+        for name in r.sample(["co", "e1", "long-name", "x.y", "_u"], r.randint(1, 3)):
+            ents[name] = r.choice(["ACME", "a b", "\u00e9t\u00e9", "", "&#x20AC;5", "q'uote"])
+        if r.random() < 0.4 and ents:
+            inner = r.choice(list(ents))
+            ents["nest"] = "[&%s;]" % inner            # an entity whose replacement text refers to another one
+
+        def expand(name, depth=0):
+            v = ents[name]
+            for k in ents:
+                if k != name and depth < 3:
+                    v = v.replace("&%s;" % k, expand(k, depth + 1))
+            return v
+
+        def text():
+            src, exp = [], []
+            for _ in range(r.randint(1, 5)):
+                k = r.random()
+                if k < 0.4:
+                    nm = r.choice(list(ents))
+                    src.append("&%s;" % nm)
+                    exp.append(expand(nm))
+                elif k < 0.55:
+                    ref = r.choice(["&amp;", "&lt;", "&gt;", "&quot;", "&apos;", "&#233;", "&#x4E2D;"])
+                    src.append(ref)
+                    exp.append(ref)
+                else:
+                    lit = r.choice(["Prices of ", " and ", "x", " ", "tail.", "\u00df"])
+                    src.append(lit)
+                    exp.append(lit)
+            return "".join(src), "".join(exp)
+        a, ax = text()
+        ts = [text() for _ in range(r.randint(1, 3))]
+        subset = "".join('<!ENTITY %s "%s">' % (k, v.replace('"', "&#34;")) for k, v in ents.items())
+        body = '<T a="%s">%s</T>'
+        doc = "<!DOCTYPE T [%s]>" % subset + body % (a.replace('"', "&quot;"), "".join("<t>%s</t>" % t for t, _ in ts))
+        plain = body % (ax.replace('"', "&quot;"), "".join("<t>%s</t>" % x for _, x in ts))
+        out.append((doc, plain))
+    return out
+
+
+XI_DOCS = [  # (document, document an XInclude-unaware / comment-free reading must equal), no xi:include element: the MODE is under test
+    ('<T a="v"><t>x<!--c-->y<?p d?>w</t><t><!--lead-->z</t></T>', '<T a="v"><t>xyw</t><t>z</t></T>'),
+    ('<!--pre--><T a="1"><t>a</t><!--between--><t>b<!--in-->c</t></T><!--post-->', '<T a="1"><t>a</t><t>bc</t></T>'),
+    ('<T><t>plain</t></T>', '<T><t>plain</t></T>')]
+
+
+def plumbing_job(job):
+    import pathlib
+    import shutil
+    import tempfile
+    import impl_binding_lib as B
+    from xsdata.formats.dataclass.parsers import XmlParser
+    from xsdata.formats.dataclass.parsers.config import ParserConfig
+    model = IP.Model(IP.full_source(ENC_SRC), "T")
+    ctx, clazz = model.ctx, model.root
+    r = random.Random(job["seed"])
+    out = []
+    tmpd = tempfile.mkdtemp(prefix="c08-pl-")
+
+    def run(kind, doc, plain, cfg, with_trees):
+        ref = XmlParser(context=ctx, handler=LxmlEventHandler).from_string(plain, clazz)
+        data = doc.encode()
+        path = os.path.join(tmpd, "d%d.xml" % len(out))
+        with open(path, "wb") as f:
+            f.write(data)
+        for hname, h in (("native", XmlEventHandler), ("lxml", LxmlEventHandler)):
+            def P():
+                return XmlParser(context=ctx, handler=h, config=ParserConfig(**cfg))
+            sources = [("bytes", lambda: P().from_bytes(data, clazz)), ("str", lambda: P().from_string(doc, clazz)),
+                       ("fileobj", lambda: P().parse(io.BytesIO(data), clazz)), ("path", lambda: P().from_path(pathlib.Path(path), clazz))]
+            if with_trees and hname == "lxml":
+                sources += [("lxml_tree", lambda: P().parse(LET.parse(io.BytesIO(data)), clazz)), ("lxml_element", lambda: P().parse(LET.fromstring(data), clazz))]
+            if with_trees and hname == "native":
+                sources += [("et_element", lambda: P().parse(ET.fromstring(data), clazz))]
+            for sname, fn in sources:
+                try:
+                    d = B.eq(ref, fn())
+                    why = None if d is None else "differs at " + d
+                except Exception as e:  # noqa
+                    why = type(e).__name__ + ": " + str(e)[:120]
+                out.append({"kind": kind, "handler": hname, "source": sname, "why": why, "doc": doc[:400], "expected": repr(ref)[:200]})
+    try:
+        for doc, plain in entity_docs(r, job.get("n", 12)):
+            run("entities", doc, plain, {}, True)
+        for doc, plain in XI_DOCS:
+            run("xinclude-mode", doc, plain, {"process_xinclude": True}, False)
+            run("comments", doc, plain, {}, True)
+        # a real inclusion: the included file carries a comment inside character data
+        inc = os.path.join(tmpd, "inc.xml")
+        with open(inc, "w") as f:
+            f.write("<t>in<!--c-->cluded</t>")
+        doc = '<T xmlns:xi="http://www.w3.org/2001/XInclude"><t>a</t><xi:include href="inc.xml"/></T>'
+        main = os.path.join(tmpd, "main.xml")
+        with open(main, "w") as f:
+            f.write(doc)
+        ref = XmlParser(context=ctx, handler=LxmlEventHandler).from_string("<T><t>a</t><t>included</t></T>", clazz)
+        for hname, h in (("native", XmlEventHandler), ("lxml", LxmlEventHandler)):
+            for sname, fn in (("strpath", lambda: XmlParser(context=ctx, handler=h, config=ParserConfig(process_xinclude=True)).parse(main, clazz)),
+                              ("bytes+base_url", lambda: XmlParser(context=ctx, handler=h, config=ParserConfig(process_xinclude=True, base_url=main)).from_bytes(doc.encode(), clazz))):
+                try:
+                    d = B.eq(ref, fn())
+                    why = None if d is None else "differs at " + d
+                except Exception as e:  # noqa
+                    why = type(e).__name__ + ": " + str(e)[:120]
+                out.append({"kind": "xinclude", "handler": hname, "source": sname, "why": why, "doc": doc, "expected": repr(ref)[:200]})
+    finally:
+        shutil.rmtree(tmpd, ignore_errors=True)
+    model.close()
+    return {"id": job["id"], "seed": job["seed"], "model": job["model"], "cases": [], "plumbing": out}
+
+
 def run_job(job):
     if "chunk" in job["model"]:
         return chunk_job(job)
+    if "plumbing" in job["model"]:
+        return plumbing_job(job)
     if "enc" in job["model"]:
         return enc_job(job)
     r, model, info, docs = build(job)
